@@ -132,13 +132,14 @@ def parseAnswer (impl : List String) : Option Answer :=
 
 def stepSearch (d : DSt) (ins impl : List String) : Option String := do
   match ins with
-  | [scan, ok, ov, lim, off, srch, ascii, aerr, status] =>
+  | [scan, ok, ov, lim, off, srch, lowered, ascii, aerr, status] =>
     let scan ← scan.toNat?
     let req : Req := {
       older := ← parseOlder ok ov
       limitRaw := ← hexDecode lim
       offsetRaw := ← hexDecode off
       searchRaw := ← hexDecode srch
+      loweredRaw := ← hexDecode lowered
       asciiRet := ← hexDecode ascii
       asciiErr := ← parseBool aerr
       statusRaw := ← hexDecode status }
@@ -158,24 +159,45 @@ def stepSearch (d : DSt) (ins impl : List String) : Option String := do
     pure (verdict agree spec (joinWith "\t" (cls :: modelObs)))
   | _ => none
 
+/-- `C07.add` (Add, then the flush goroutine it started runs) and `C07.addthen`
+(Add, then clear / shutdown / restart BEFORE that goroutine runs, then it runs). -/
+def addLike (d : DSt) (impl : List String) (t : Option Then)
+    (id dt qname cid ip ipAnon reason isF : String) : Option (DSt × String) := do
+  let dt ← dt.toNat?
+  let clock := d.clock + dt
+  let e : Entry := {
+    ts := clock, host := normalizeDomain (← hexDecode qname), cid := ← hexDecode cid, ip := ← hexDecode ip
+    ipAnon := ← hexDecode ipAnon
+    reason := ← reason.toNat?, isFiltered := ← parseBool isF, id := ← id.toNat? }
+  let op : Op := match t with
+    | none => .add e
+    | some t => .addThen e t
+  let s' := step d.s op
+  let g' := gStep d.g op
+  let spawned := (addRaw d.s e).tasks > d.s.tasks
+  let kind : String := match t with
+    | none => "add"
+    | some Then.clear => "addthen.clear"
+    | some Then.shutdown => "addthen.shutdown"
+    | some (Then.restart _ _ _) => "addthen.restart"
+  let cls := kind ++ (if !d.s.conf.enabled then ".off" else if spawned then ".flush" else ".mem")
+  -- the first observation field is the decode(encode e) = e test of the harness
+  let (d', out) := answerOp cls d s' g' clock ["1"] impl
+  let out := if impl.head? == some "0" then
+    verdict (out.startsWith "AGREE") (some "C07.roundtrip") (joinWith "\t" (cls :: "1" :: showDump d.full s')) else out
+  pure (d', out)
+
 def stepOp (d : DSt) (op : String) (ins impl : List String) : Option (DSt × String) := do
   match op, ins with
   | "C07.add", [id, dt, qname, cid, ip, ipAnon, reason, isF, _variant] =>
-    let dt ← dt.toNat?
-    let clock := d.clock + dt
-    let e : Entry := {
-      ts := clock, host := normalizeDomain (← hexDecode qname), cid := ← hexDecode cid, ip := ← hexDecode ip
-      ipAnon := ← hexDecode ipAnon
-      reason := ← reason.toNat?, isFiltered := ← parseBool isF, id := ← id.toNat? }
-    let s' := step d.s (.add e)
-    let g' := gStep d.g (.add e)
-    let cls := if !d.s.conf.enabled then "add.off"
-      else if s'.mem.isEmpty then "add.flush" else "add.mem"
-    -- the first observation field is the decode(encode e) = e test of the harness
-    let (d', out) := answerOp cls d s' g' clock ["1"] impl
-    let out := if impl.head? == some "0" then
-      verdict (out.startsWith "AGREE") (some "C07.roundtrip") (joinWith "\t" (cls :: "1" :: showDump d.full s')) else out
-    pure (d', out)
+    addLike d impl none id dt qname cid ip ipAnon reason isF
+  | "C07.addthen", id :: dt :: qname :: cid :: ip :: ipAnon :: reason :: isF :: _variant :: thn =>
+    let t : Then ← (match thn with
+      | ["clear"] => some Then.clear
+      | ["shutdown"] => some Then.shutdown
+      | ["restart", m, f, en] => do pure (Then.restart (← m.toNat?) (← parseBool f) (← parseBool en))
+      | _ => none)
+    addLike d impl (some t) id dt qname cid ip ipAnon reason isF
   | "C07.shutdown", [] =>
     pure (answerOp "shutdown" d (step d.s .shutdown) (gStep d.g .shutdown) d.clock [] impl)
   | "C07.rotate", [] =>
